@@ -631,4 +631,34 @@ Proof.
   f_equal; [field; sp_nz|]. f_equal; [field; sp_nz|]. f_equal; [field; sp_nz|]. f_equal. field; sp_nz.
 Qed.
 
+(* ---------------------------------------------------------------------------------------- *)
+(** * the 1-D entry point on the closed domain: never an error, value = local sum *)
+Theorem sp_nu_eval_1d_domain knots degree coeffs x der :
+  sp_sorted knots -> (2 * degree + 1 < length knots)%nat ->
+  sp_kn F K knots degree < sp_kn F K knots (S degree) ->
+  sp_kn F K knots (length knots - degree - 2) < sp_kn F K knots (length knots - 1 - degree) ->
+  sp_kn F K knots degree <= x -> x <= sp_kn F K knots (length knots - 1 - degree) ->
+  length coeffs = (length knots - degree - 1)%nat -> (der <= 1)%nat -> (der <= degree)%nat ->
+  exists s, sp_nu_find_span F K knots degree x = SpOk s /\
+    (degree <= s <= length knots - degree - 2)%nat /\
+    sp_kn F K knots s < sp_kn F K knots (S s) /\ sp_kn F K knots s <= x /\ x <= sp_kn F K knots (S s) /\
+    sp_nu_eval_1d_scalar F K x knots degree coeffs der
+    = SpOk (sumr 0 (S degree) (fun j => nth (s - degree + j) coeffs 0 * nth j (sp_basis_of der knots degree x s) 0)).
+Proof.
+  intros Hs Hlen Hfirst Hlast Hlo Hhi Hc H1 H2.
+  destruct (sp_nu_find_span_domain knots degree x Hs Hlen Hfirst Hlast Hlo Hhi) as [s [E [Hr [Hp [Hx1 [Hx2 _]]]]]].
+  exists s. repeat (split; [assumption|]).
+  apply sp_nu_eval_1d_scalar_spec; try assumption; lia.
+Qed.
+
+(** the uniform-cubic entry points: vector = scalar at every point *)
+Theorem sp_cu_eval_1d_vector_eq_map knots degree coeffs der xs : (der <= 1)%nat ->
+  (exists xmin xmax dx fn rest, knots = xmin :: xmax :: dx :: fn :: rest) ->
+  sp_cu_eval_1d_vector F K xs knots degree coeffs der
+  = sp_mapM (fun x => sp_cu_eval_1d_scalar F K x knots degree coeffs der) xs.
+Proof.
+  intros H [xmin [xmax [dx [fn [rest ->]]]]]. unfold sp_cu_eval_1d_vector, sp_cu_eval_1d_scalar.
+  cbn [sp_cu_unpack sp_bind]. destruct der as [|[|der]]; [reflexivity|reflexivity|lia].
+Qed.
+
 End Theory.
